@@ -298,6 +298,7 @@ fn record(cell: &Cell, rep: &mut Report) {
 }
 
 pub fn run(_tier: Tier, shard: Shard, rep: &mut Report) {
+    set_tier(_tier);
     rep.rule = "(i) every cell of the C13 matrix and of the C14 matrix with a checker that has at least one read-only level; \
         (ii) ReadOnlyCache alone with 1-3 levels, each plain or sharded and each root missing / empty / populated / populated \
         without the key's shard directories, under get and touch (with and without checker) of present, absent, reserved, \
